@@ -283,14 +283,14 @@ func (w *world) step(a *sess.Act) (bool, error) {
 	}
 	bloated := peak-rss0 > bloatKiB
 	if bloated {
-		w.violate(sig+"/bloat", fmt.Sprintf("%s: the resident set of the server grew from %d MiB to %d MiB while it handled a line of %d bytes (%s)",
+		w.violate(a.X+"/bloat/"+phase, fmt.Sprintf("%s: the resident set of the server grew from %d MiB to %d MiB while it handled a line of %d bytes (%s)",
 			where, rss0/1024, peak/1024, line.Size, o.Brief()))
 	}
 	if kind == "hang" {
 		w.sh.mu.Lock()
 		w.sh.silent[sig] = "hang"
 		w.sh.mu.Unlock()
-		w.violate(sig+"/hang", fmt.Sprintf("%s: no completion after %v and the server is still using CPU time (resident set %d MiB)", where, waited.Round(time.Second), peak/1024))
+		w.violate(a.X+"/hang/"+phase, fmt.Sprintf("%s: no completion after %v and the server is still using CPU time (resident set %d MiB)", where, waited.Round(time.Second), peak/1024))
 	}
 	if bloated || kind == "hang" {
 		w.restart()
@@ -315,14 +315,14 @@ func (w *world) step(a *sess.Act) (bool, error) {
 		w.sh.mu.Lock()
 		w.sh.silent[sig] = "silent"
 		w.sh.mu.Unlock()
-		w.violate(sig+"/no-completion", fmt.Sprintf("%s: a complete line, but no completion arrived (%v, server idle: it waits for more input); the specification wants one of %v",
+		w.violate(a.X+"/no-completion/"+phase, fmt.Sprintf("%s: a complete line, but no completion arrived (%v, server idle: it waits for more input); the specification wants one of %v",
 			where, waited.Round(100*time.Millisecond), a.Res))
 		insync = false
 	case o.Status == "":
-		w.violate(sig+"/closed", fmt.Sprintf("%s: %s; the specification wants one of %v and the connection kept open", where, o.Brief(), a.Res))
+		w.violate(a.X+"/closed/"+phase, fmt.Sprintf("%s: %s; the specification wants one of %v and the connection kept open", where, o.Brief(), a.Res))
 		insync = false
 	case !a.Allows(o.Status):
-		w.violate(sig+"/result", fmt.Sprintf("%s was answered %q; the specification wants one of %v", where, o.Brief(), a.Res))
+		w.violate(a.X+"/result/"+phase, fmt.Sprintf("%s was answered %q; the specification wants one of %v", where, o.Brief(), a.Res))
 		insync = false
 	default:
 		want := tag
@@ -333,7 +333,7 @@ func (w *world) step(a *sess.Act) (bool, error) {
 			want = ""
 		}
 		if !(o.Status == "CONT" || o.Tag == want || (a.Tag == "none" && (o.Tag == "*" || o.Tag == line.First))) {
-			w.violate(sig+"/tag", fmt.Sprintf("%s: the completion %q does not carry the tag of the line (%q)", where, o.Brief(), want))
+			w.violate(a.X+"/tag/"+phase, fmt.Sprintf("%s: the completion %q does not carry the tag of the line (%q)", where, o.Brief(), want))
 		}
 	}
 	if insync {
@@ -344,7 +344,7 @@ func (w *world) step(a *sess.Act) (bool, error) {
 		}
 		if a.Close {
 			if end := c.Await(watch); !end.Closed {
-				w.violate(sig+"/not-closed", fmt.Sprintf("%s: the specification closes the connection here (LOGOUT or error limit); the server did not (%s)", where, end.Brief()))
+				w.violate(a.X+"/not-closed/"+phase, fmt.Sprintf("%s: the specification closes the connection here (LOGOUT or error limit); the server did not (%s)", where, end.Brief()))
 				insync = false
 			}
 			c.Close()
@@ -385,7 +385,7 @@ func (w *world) probeOthers(a *sess.Act, sig, where string) bool {
 			if w.crashed(where) {
 				return false
 			}
-			w.violate(sig+"/others-affected", fmt.Sprintf("after %s on another connection, the NOOP of session %s was answered: %s %s", where, t, o.Brief(), o.Garbage))
+			w.violate(kindKey(sig, "others-affected"), fmt.Sprintf("after %s on another connection, the NOOP of session %s was answered: %s %s", where, t, o.Brief(), o.Garbage))
 			w.restart()
 			return false
 		}
@@ -429,14 +429,14 @@ func (w *world) afterDisconnect(sig, where string) (bool, error) {
 		if w.crashed(where) {
 			return false, nil
 		}
-		w.violate(sig+"/no-new-connections", fmt.Sprintf("after %s and a disconnect, a new connection was not greeted: %v", where, err))
+		w.violate(kindKey(sig, "no-new-connections"), fmt.Sprintf("after %s and a disconnect, a new connection was not greeted: %v", where, err))
 		w.restart()
 		return false, nil
 	}
 	o := c.Cmd("NOOP", watch)
 	c.Close()
 	if o.Status != "OK" {
-		w.violate(sig+"/no-new-connections", fmt.Sprintf("after %s and a disconnect, NOOP on a new connection: %s", where, o.Brief()))
+		w.violate(kindKey(sig, "no-new-connections"), fmt.Sprintf("after %s and a disconnect, NOOP on a new connection: %s", where, o.Brief()))
 	}
 	w.sh.mu.Lock()
 	n := w.sh.spinDone[sig]
@@ -496,7 +496,7 @@ func (w *world) spinCheck(sig, where string) bool {
 	w.sh.mu.Lock()
 	w.sh.silent[sig+"/spin"] = "spin"
 	w.sh.mu.Unlock()
-	w.violate(sig+"/spin-after-disconnect", fmt.Sprintf("%s, then the client closed the connection: 3 s later the server still uses %d%% of a core with no client talking to it, resident set %d -> %d MiB in those 3 s",
+	w.violate(kindKey(sig, "spin-after-disconnect"), fmt.Sprintf("%s, then the client closed the connection: 3 s later the server still uses %d%% of a core with no client talking to it, resident set %d -> %d MiB in those 3 s",
 		where, c1-c0, rss0/1024, rss1/1024))
 	w.restart()
 	return false
@@ -559,7 +559,7 @@ func replayBehaviours(r *ev.Run, sh *shared, bs []*sess.Behaviour, part, parts i
 			if c := w.conns["s1"]; c != nil && !c.Dead() && c.IdleTag == "" {
 				last := b.Trace[len(b.Trace)-1]
 				if o := c.Cmd("NOOP", watch); o.Status != "OK" || o.Garbage != "" {
-					w.violate(last.Was+"/"+last.X+"/leftover", fmt.Sprintf("a NOOP after the behaviour %s was answered: %s %s", b.Sig(), o.Brief(), o.Garbage))
+					w.violate(last.X+"/leftover/"+last.Was, fmt.Sprintf("a NOOP after the behaviour %s was answered: %s %s", b.Sig(), o.Brief(), o.Garbage))
 				}
 			}
 		}
@@ -740,6 +740,15 @@ func run(r *ev.Run, tier, replay string) {
 		"raw TLS hello: the client gives up after sending it; whether the server answers BAD or closes is not judged",
 		"the servers run without TLS; login jail time 1 ms so that failed logins inside malformed lines do not delay later lines",
 	}
+}
+
+// kindKey turns a signature "phase/class" into the key "class/kind/phase" (known findings match by prefix).
+func kindKey(sig, kind string) string {
+	p := strings.SplitN(sig, "/", 2)
+	if len(p) != 2 {
+		return sig + "/" + kind
+	}
+	return p[1] + "/" + kind + "/" + p[0]
 }
 
 func isHeavy(b *sess.Behaviour) bool {
